@@ -707,7 +707,7 @@ def attached(w: World):
 # ------------------------------------------------------------------------------------------
 def model_runs(ctx, cases, cfg="current"):
     """cases: list of (init string, [op, ...]) -> list (one per case) of lists of (out, {id: node string})"""
-    reqs = [("tree.run", cfg, init, ";".join(op_str(o) for o in ops) if ops else "-") for init, ops in cases]
+    reqs = [("treest.run", cfg, init, ";".join(op_str(o) for o in ops) if ops else "-") for init, ops in cases]
     res = []
     for (init, ops), ans in zip(cases, ctx.driver().batch(reqs)):
         if ans[0] != "ok":
